@@ -3144,7 +3144,7 @@ variable (size per cnt : Nat) (upd : DVert → List Str → Except Err DVert) (s
   (toks : DVert → List Str) (src vs : List DVert)
 
 theorem applyRowFrom_spec (hc : cnt ≤ size) (hlen : vs.length = size * size) (hsrc : src.length = size * size)
-    (hupd : ∀ v s, upd v (toks s) = .ok (setF v s))
+    (hupd : ∀ v, ∀ s ∈ src, upd v (toks s) = .ok (setF v s))
     (y : Nat) (hy : y < size) (rowToks : List Str)
     (hrow : ∀ x s, x < cnt → src[y * size + x]? = some s → (rowToks.drop (per * x)).take per = toks s)
     (n x0 : Nat) (hn : x0 + n = cnt) :
@@ -3172,7 +3172,7 @@ theorem applyRowFrom_spec (hc : cnt ≤ size) (hlen : vs.length = size * size) (
       simp [hnot]
     have hsd : src.getD (y * size + x0) blankVert = s := by
       simp [List.getD, hs]
-    simp only [applyRowFrom, hget, hrow x0 s hx hs, hupd]
+    simp only [applyRowFrom, hget, hrow x0 s hx hs, hupd v s (List.mem_of_getElem? hs)]
     have hstep : setAt (stP size cnt setF src vs y x0) (y * size + x0) (fun _ => setF v s)
         = stP size cnt setF src vs y (x0 + 1) := by
       unfold stP
@@ -3235,7 +3235,7 @@ theorem row_slice (hc : cnt ≤ size) (y x : Nat) (hx : x < cnt) :
 
 theorem applyRows_spec (hc : cnt ≤ size) (hlen : vs.length = size * size) (hsrc : src.length = size * size)
     (hper : ∀ s, (toks s).length = per)
-    (hupd : ∀ v s, upd v (toks s) = .ok (setF v s))
+    (hupd : ∀ v, ∀ s ∈ src, upd v (toks s) = .ok (setF v s))
     (nr y0 : Nat) (hy : y0 + nr ≤ size) :
     applyRows size per cnt upd (idxFrom y0 (rowsetToks size nr cnt toks (src.drop (y0 * size))))
         (stP size cnt setF src vs y0 0)
@@ -3311,16 +3311,15 @@ theorem flatMap_length_const (toks : DVert → List Str) (per : Nat) (hper : ∀
   | nil => simp
   | cons a r ih => simp [hper, ih, Nat.mul_add]; omega
 
-/-- **One array.** If the children contain exactly one block `name`, written by the exporter from
-`src` (`nrows` rows, `cnt` vertices each), applying it to `vs` sets exactly those vertices. -/
-theorem applyRowset_spec (name : String) (nrows : Nat) (pre post : List KV)
+/-- **One array.** If the array name selects the block the exporter wrote from `src` (`nrows`
+rows, `cnt` vertices each), applying it to `vs` sets exactly those vertices. -/
+theorem applyRowset_spec (name : String) (nrows : Nat) (cs : List KV)
     (hc : cnt ≤ size) (hn : nrows ≤ size) (hlen : vs.length = size * size) (hsrc : src.length = size * size)
     (hper : ∀ s, (toks s).length = per)
     (htok : ∀ s ∈ src, TokList (toks s))
-    (hupd : ∀ v s, upd v (toks s) = .ok (setF v s))
-    (hpre : ∀ k ∈ pre, named name k = false) (hpost : ∀ k ∈ post, named name k = false) :
-    applyRowset name size per cnt upd
-        (pre ++ kBlock name (rowLeaves (rowsetToks size nrows cnt toks src)) :: post) vs
+    (hupd : ∀ v, ∀ s ∈ src, upd v (toks s) = .ok (setF v s))
+    (hd : dispRows name (per * cnt) cs = rowsOfBlock (per * cnt) (rowLeaves (rowsetToks size nrows cnt toks src))) :
+    applyRowset name size per cnt upd cs vs
       = .ok (mapIdx (fun i v => if inRegion size nrows cnt i then setF v (src.getD i blankVert) else v) 0 vs) := by
   have hrows : rowsOfBlock (per * cnt) (rowLeaves (rowsetToks size nrows cnt toks src))
       = .ok (idxFrom 0 (rowsetToks size nrows cnt toks src)) := by
@@ -3337,13 +3336,553 @@ theorem applyRowset_spec (name : String) (nrows : Nat) (pre post : List KV)
       obtain ⟨s, hs, hts⟩ := ht
       exact htok s (rowsOf_mem size nrows src row hrow s (List.mem_of_mem_take hs)) t hts
   unfold applyRowset
-  rw [dispRows_hit name (per * cnt) pre post _ _ hpre hpost hrows]
+  rw [hd, hrows]
   simp only []
   have := applyRows_spec size per cnt upd setF toks src vs hc hlen hsrc hper hupd nrows 0 (by omega)
   simp only [Nat.zero_mul, List.drop_zero, Nat.zero_add, stP_zero] at this
   rw [this, stP_final]
 
 end
+
+
+
+
+/-! ### displacement: well-formedness and the per-field updates -/
+
+def V4OK (v : V4) : Bool := TokOK v.x && TokOK v.y && TokOK v.z && TokOK v.w
+def triOK (t : Int) : Bool := t == 0 || t == 1 || t == 9
+
+def DVertOK (v : DVert) : Bool :=
+  V3OK v.normal && TokOK v.dist && V3OK v.offset && V3OK v.offsetNorm && TokOK v.alpha &&
+  triOK v.triA && triOK v.triB && V4OK v.blend && V4OK v.malpha &&
+  (match v.colors with
+   | some cs => cs.all V3OK
+   | none => true)
+
+def DispOK (d : Disp) : Bool :=
+  decide (1 ≤ d.power) && decide (d.power ≤ 4) && V3OK d.pos && isNum d.elev && decide (d.coll < 8) &&
+  decide (d.allowed.length = 10) && decide (d.verts.length = dispSize d.power * dispSize d.power) &&
+  d.verts.all DVertOK
+
+theorem tokList_of_tokOK {l : List Str} (h : ∀ t ∈ l, TokOK t = true) : TokList l :=
+  fun t ht => ⟨tok_ne_nil (h t ht), tok_noWs (h t ht)⟩
+
+theorem v3_tokList {v : V3} (h : V3OK v = true) : TokList v.toks := by
+  obtain ⟨hx, hy, hz⟩ := v3ok_parts h
+  apply tokList_of_tokOK
+  intro t ht
+  simp only [V3.toks, List.mem_cons, List.mem_nil_iff, or_false] at ht
+  rcases ht with rfl | rfl | rfl <;> assumption
+
+theorem num3_toks {v : V3} (h : V3OK v = true) : num3 v.toks = .ok v := by
+  obtain ⟨hx, hy, hz⟩ := v3ok_parts h
+  simp [num3, V3.toks, tok_isNum hx, tok_isNum hy, tok_isNum hz]
+
+theorem v4ok_parts {v : V4} (h : V4OK v = true) :
+    TokOK v.x = true ∧ TokOK v.y = true ∧ TokOK v.z = true ∧ TokOK v.w = true := by
+  simp [V4OK] at h; exact ⟨h.1.1.1, h.1.1.2, h.1.2, h.2⟩
+
+theorem v4_tokList {v : V4} (h : V4OK v = true) : TokList v.toks := by
+  obtain ⟨hx, hy, hz, hw⟩ := v4ok_parts h
+  apply tokList_of_tokOK
+  intro t ht
+  simp only [V4.toks, List.mem_cons, List.mem_nil_iff, or_false] at ht
+  rcases ht with rfl | rfl | rfl | rfl <;> assumption
+
+theorem num4_toks {v : V4} (h : V4OK v = true) : num4 v.toks = .ok v := by
+  obtain ⟨hx, hy, hz, hw⟩ := v4ok_parts h
+  simp [num4, V4.toks, tok_isNum hx, tok_isNum hy, tok_isNum hz, tok_isNum hw]
+
+theorem num1_tok {t : Str} (h : TokOK t = true) : num1 [t] = .ok t := by
+  simp [num1, tok_isNum h]
+
+theorem showInt_tok (i : Int) : showInt i ≠ [] ∧ NoWs (showInt i) := by
+  refine ⟨?_, ?_⟩
+  · cases i with
+    | ofNat n => exact showNat_ne_nil n
+    | negSucc n => simp [showInt]
+  · intro c hc
+    rcases showInt_chars i c hc with h | rfl
+    · simp only [Char.isDigit, Bool.and_eq_true, decide_eq_true_eq] at h
+      simp only [isWs, Bool.or_eq_false_iff, beq_eq_false_iff_ne, ne_eq]
+      refine ⟨⟨⟨⟨⟨⟨⟨⟨⟨⟨⟨?_, ?_⟩, ?_⟩, ?_⟩, ?_⟩, ?_⟩, ?_⟩, ?_⟩, ?_⟩, ?_⟩, ?_⟩, ?_⟩ <;>
+        (intro e; subst e; revert h; decide)
+    · decide
+
+theorem triTag_show {t : Int} (h : triOK t = true) : triTag (showInt t) = .ok t := by
+  simp only [triOK, Bool.or_eq_true, beq_iff_eq] at h
+  simp only [triTag, parseInt_showInt]
+  rcases h with (rfl | rfl) | rfl <;> rfl
+
+def colorOf (i : Nat) (s : DVert) : V3 := (s.colors.getD []).getD i v3one
+
+theorem colorToks_eq (i : Nat) (s : DVert) : colorToks i s = (colorOf i s).toks := by
+  cases hc : s.colors <;> simp [colorToks, colorOf, hc]
+
+theorem v3one_ok : V3OK v3one = true := by decide
+
+theorem colorOf_ok (i : Nat) (s : DVert) (h : DVertOK s = true) : V3OK (colorOf i s) = true := by
+  simp only [DVertOK, Bool.and_eq_true] at h
+  have hc := h.2
+  unfold colorOf
+  cases hcs : s.colors with
+  | none => simp [v3one_ok]
+  | some cs =>
+    rw [hcs] at hc
+    simp only [List.all_eq_true] at hc
+    simp only [Option.getD_some]
+    simp only [List.getD_eq_getElem?_getD]
+    cases hg : cs[i]? with
+    | none => simp [v3one_ok]
+    | some c =>
+      simp only [Option.getD_some]
+      exact hc c (List.mem_of_getElem? hg)
+
+
+
+
+/-! ### displacement: which block an array name selects -/
+
+theorem rowsetKids_eq (size : Nat) (verts : List DVert) (toks : DVert → List Str)
+    (h : verts.length = size * size) :
+    rowsetKids size verts toks = rowLeaves (rowsetToks size size size toks verts) := by
+  unfold rowsetKids rowsetToks
+  congr 1
+  apply List.map_congr_left
+  intro r hr
+  have := rowsOf_lengths size size verts (by rw [h]; exact Nat.le_refl _) r hr
+  rw [List.take_of_length_le (by omega)]
+
+theorem triKids_eq (size : Nat) (verts : List DVert) :
+    triKids size verts = rowLeaves (rowsetToks size (size - 1) (size - 1) triToks verts) := rfl
+
+macro "disp_rows" : tactic => `(tactic| (
+  simp [dispKidsOf, dispHead, dispRows, named, KV.fname, KV.name, kLeaf, kInt, kBool, kBlock, lower, blockKids]
+  <;> (split <;> simp_all)))
+
+section
+variable (d : Disp) (w : Nat) (K1 K2 K3 K4 K5 K6 K7 : List KV)
+  (m : Option (List KV × List KV × List KV × List KV × List KV × List KV))
+
+theorem dispRows_normals : dispRows "normals" w (dispKidsOf (dispHead d) K1 K2 K3 K4 K5 K6 K7 m) = rowsOfBlock w K1 := by
+  rcases m with _ | ⟨M1, M2, M3, M4, M5, M6⟩ <;> disp_rows
+theorem dispRows_distances : dispRows "distances" w (dispKidsOf (dispHead d) K1 K2 K3 K4 K5 K6 K7 m) = rowsOfBlock w K2 := by
+  rcases m with _ | ⟨M1, M2, M3, M4, M5, M6⟩ <;> disp_rows
+theorem dispRows_offsets : dispRows "offsets" w (dispKidsOf (dispHead d) K1 K2 K3 K4 K5 K6 K7 m) = rowsOfBlock w K3 := by
+  rcases m with _ | ⟨M1, M2, M3, M4, M5, M6⟩ <;> disp_rows
+theorem dispRows_offset_normals : dispRows "offset_normals" w (dispKidsOf (dispHead d) K1 K2 K3 K4 K5 K6 K7 m) = rowsOfBlock w K4 := by
+  rcases m with _ | ⟨M1, M2, M3, M4, M5, M6⟩ <;> disp_rows
+theorem dispRows_alphas : dispRows "alphas" w (dispKidsOf (dispHead d) K1 K2 K3 K4 K5 K6 K7 m) = rowsOfBlock w K5 := by
+  rcases m with _ | ⟨M1, M2, M3, M4, M5, M6⟩ <;> disp_rows
+theorem dispRows_tris : dispRows "triangle_tags" w (dispKidsOf (dispHead d) K1 K2 K3 K4 K5 K6 K7 m) = rowsOfBlock w K6 := by
+  rcases m with _ | ⟨M1, M2, M3, M4, M5, M6⟩ <;> disp_rows
+
+variable (M1 M2 M3 M4 M5 M6 : List KV)
+theorem dispRows_multiblend : dispRows "multiblend" w (dispKidsOf (dispHead d) K1 K2 K3 K4 K5 K6 K7 (some (M1, M2, M3, M4, M5, M6))) = rowsOfBlock w M1 := by
+  disp_rows
+theorem dispRows_alphablend : dispRows "alphablend" w (dispKidsOf (dispHead d) K1 K2 K3 K4 K5 K6 K7 (some (M1, M2, M3, M4, M5, M6))) = rowsOfBlock w M2 := by
+  disp_rows
+theorem dispRows_color0 : dispRows "multiblend_color_0" w (dispKidsOf (dispHead d) K1 K2 K3 K4 K5 K6 K7 (some (M1, M2, M3, M4, M5, M6))) = rowsOfBlock w M3 := by
+  disp_rows
+theorem dispRows_color1 : dispRows "multiblend_color_1" w (dispKidsOf (dispHead d) K1 K2 K3 K4 K5 K6 K7 (some (M1, M2, M3, M4, M5, M6))) = rowsOfBlock w M4 := by
+  disp_rows
+theorem dispRows_color2 : dispRows "multiblend_color_2" w (dispKidsOf (dispHead d) K1 K2 K3 K4 K5 K6 K7 (some (M1, M2, M3, M4, M5, M6))) = rowsOfBlock w M5 := by
+  disp_rows
+theorem dispRows_color3 : dispRows "multiblend_color_3" w (dispKidsOf (dispHead d) K1 K2 K3 K4 K5 K6 K7 (some (M1, M2, M3, M4, M5, M6))) = rowsOfBlock w M6 := by
+  disp_rows
+end
+
+
+
+
+/-! ### displacement: the vertex arrays, assembled -/
+
+/-- a vertex after the six arrays every displacement has -/
+def baseVert (size i : Nat) (a : DVert) : DVert :=
+  { blankVert with
+    normal := a.normal, offset := a.offset, offsetNorm := a.offsetNorm, alpha := a.alpha, dist := a.dist,
+    triA := if inRegion size (size - 1) (size - 1) i then a.triA else 9,
+    triB := if inRegion size (size - 1) (size - 1) i then a.triB else 9 }
+
+/-- … and after the multiblend arrays -/
+def multiVert (size i : Nat) (a : DVert) : DVert :=
+  { baseVert size i a with
+    colors := some [colorOf 0 a, colorOf 1 a, colorOf 2 a, colorOf 3 a], blend := a.blend, malpha := a.malpha }
+
+theorem replicate_eq_map {α β} (l : List α) (n : Nat) (b : β) (h : l.length = n) :
+    List.replicate n b = l.map (fun _ => b) := by
+  subst h
+  induction l with
+  | nil => rfl
+  | cons a r ih => simp [List.replicate_succ, ih]
+
+theorem inRegion_full (size i : Nat) (h : i < size * size) : inRegion size size size i = true := by
+  have hs : 0 < size := by
+    rcases Nat.eq_zero_or_pos size with h0 | h0
+    · subst h0; simp at h
+    · exact h0
+  have h1 : i / size < size := (Nat.div_lt_iff_lt_mul hs).mpr h
+  have h2 : i % size < size := Nat.mod_lt _ hs
+  simp [inRegion, h1, h2]
+
+theorem getD_of_getElem? {l : List DVert} {j : Nat} {a : DVert} (h : l[j]? = some a) :
+    l.getD j blankVert = a := by simp [List.getD, h]
+
+theorem lt_of_getElem? {l : List DVert} {j : Nat} {a : DVert} (h : l[j]? = some a) : j < l.length := by
+  rcases Nat.lt_or_ge j l.length with h1 | h1
+  · exact h1
+  · rw [List.getElem?_eq_none h1] at h; cases h
+
+section
+variable (d : Disp) (K7 : List KV) (m : Option (List KV × List KV × List KV × List KV × List KV × List KV))
+
+theorem dispVertsBase_export (h : DispOK d = true) :
+    dispVertsBase (dispSize d.power) (dispSize d.power - 1)
+      (dispKidsOf (dispHead d)
+        (rowLeaves (rowsetToks (dispSize d.power) (dispSize d.power) (dispSize d.power) (·.normal.toks) d.verts))
+        (rowLeaves (rowsetToks (dispSize d.power) (dispSize d.power) (dispSize d.power) (fun v => [v.dist]) d.verts))
+        (rowLeaves (rowsetToks (dispSize d.power) (dispSize d.power) (dispSize d.power) (·.offset.toks) d.verts))
+        (rowLeaves (rowsetToks (dispSize d.power) (dispSize d.power) (dispSize d.power) (·.offsetNorm.toks) d.verts))
+        (rowLeaves (rowsetToks (dispSize d.power) (dispSize d.power) (dispSize d.power) (fun v => [v.alpha]) d.verts))
+        (rowLeaves (rowsetToks (dispSize d.power) (dispSize d.power - 1) (dispSize d.power - 1) triToks d.verts))
+        K7 m)
+      = .ok (mapIdx (baseVert (dispSize d.power)) 0 d.verts) := by
+  simp only [DispOK, Bool.and_eq_true, decide_eq_true_eq, List.all_eq_true] at h
+  obtain ⟨⟨⟨⟨⟨⟨⟨hp1, hp4⟩, hpos⟩, helev⟩, hcoll⟩, hal⟩, hlen⟩, hv⟩ := h
+  generalize hsz : dispSize d.power = size at *
+  have hvo : ∀ s ∈ d.verts, DVertOK s = true := hv
+  have parts : ∀ s ∈ d.verts, V3OK s.normal = true ∧ TokOK s.dist = true ∧ V3OK s.offset = true ∧
+      V3OK s.offsetNorm = true ∧ TokOK s.alpha = true ∧ triOK s.triA = true ∧ triOK s.triB = true := by
+    intro s hs
+    have := hvo s hs
+    simp only [DVertOK, Bool.and_eq_true] at this
+    obtain ⟨⟨⟨⟨⟨⟨⟨⟨⟨a1, a2⟩, a3⟩, a4⟩, a5⟩, a6⟩, a7⟩, _⟩, _⟩, _⟩ := this
+    exact ⟨a1, a2, a3, a4, a5, a6, a7⟩
+  unfold dispVertsBase
+  -- normals
+  rw [applyRowset_spec size 3 size updNormal (fun v s => { v with normal := s.normal }) (·.normal.toks) d.verts _
+    "normals" size _ (Nat.le_refl _) (Nat.le_refl _) (by simp) hlen (by intro s; rfl)
+    (fun s hs => v3_tokList (parts s hs).1)
+    (fun v s hs => by simp [updNormal, num3_toks (parts s hs).1])
+    (dispRows_normals d _ _ _ _ _ _ _ _ _)]
+  simp only [Except.bind]
+  -- offsets
+  rw [applyRowset_spec size 3 size updOffset (fun v s => { v with offset := s.offset }) (·.offset.toks) d.verts _
+    "offsets" size _ (Nat.le_refl _) (Nat.le_refl _) (by simp [mapIdx_length]) hlen (by intro s; rfl)
+    (fun s hs => v3_tokList (parts s hs).2.2.1)
+    (fun v s hs => by simp [updOffset, num3_toks (parts s hs).2.2.1])
+    (dispRows_offsets d _ _ _ _ _ _ _ _ _)]
+  simp only [Except.bind]
+  -- offset normals
+  rw [applyRowset_spec size 3 size updOffsetNorm (fun v s => { v with offsetNorm := s.offsetNorm }) (·.offsetNorm.toks) d.verts _
+    "offset_normals" size _ (Nat.le_refl _) (Nat.le_refl _) (by simp [mapIdx_length]) hlen (by intro s; rfl)
+    (fun s hs => v3_tokList (parts s hs).2.2.2.1)
+    (fun v s hs => by simp [updOffsetNorm, num3_toks (parts s hs).2.2.2.1])
+    (dispRows_offset_normals d _ _ _ _ _ _ _ _ _)]
+  simp only [Except.bind]
+  -- alphas
+  rw [applyRowset_spec size 1 size updAlpha (fun v s => { v with alpha := s.alpha }) (fun v => [v.alpha]) d.verts _
+    "alphas" size _ (Nat.le_refl _) (Nat.le_refl _) (by simp [mapIdx_length]) hlen (by intro s; rfl)
+    (fun s hs => tokList_of_tokOK (by intro t ht; simp at ht; subst ht; exact (parts s hs).2.2.2.2.1))
+    (fun v s hs => by simp [updAlpha, num1_tok (parts s hs).2.2.2.2.1])
+    (by simpa using dispRows_alphas d (1 * size) _ _ _ _ _ _ _ _)]
+  simp only [Except.bind]
+  -- distances
+  rw [applyRowset_spec size 1 size updDist (fun v s => { v with dist := s.dist }) (fun v => [v.dist]) d.verts _
+    "distances" size _ (Nat.le_refl _) (Nat.le_refl _) (by simp [mapIdx_length]) hlen (by intro s; rfl)
+    (fun s hs => tokList_of_tokOK (by intro t ht; simp at ht; subst ht; exact (parts s hs).2.1))
+    (fun v s hs => by simp [updDist, num1_tok (parts s hs).2.1])
+    (by simpa using dispRows_distances d (1 * size) _ _ _ _ _ _ _ _)]
+  simp only [Except.bind]
+  -- triangle tags
+  rw [applyRowset_spec size 2 (size - 1) updTri (fun v s => { v with triA := s.triA, triB := s.triB }) triToks d.verts _
+    "triangle_tags" (size - 1) _ (Nat.sub_le _ _) (Nat.sub_le _ _) (by simp [mapIdx_length]) hlen (by intro s; rfl)
+    (fun s hs => by
+      intro t ht
+      simp only [triToks, List.mem_cons, List.mem_nil_iff, or_false] at ht
+      rcases ht with rfl | rfl <;> exact showInt_tok _)
+    (fun v s hs => by simp [updTri, triToks, triTag_show (parts s hs).2.2.2.2.2.1, triTag_show (parts s hs).2.2.2.2.2.2])
+    (dispRows_tris d _ _ _ _ _ _ _ _ _)]
+  -- collapse the six maps
+  congr 1
+  rw [replicate_eq_map d.verts (size * size) blankVert hlen]
+  simp only [mapIdx_mapIdx, mapIdx_map]
+  apply mapIdx_congr
+  intro j a ha
+  have hj : j < size * size := by rw [← hlen]; exact lt_of_getElem? ha
+  simp only [Nat.zero_add, inRegion_full size j hj, if_true, getD_of_getElem? ha, baseVert]
+  by_cases hr : inRegion size (size - 1) (size - 1) j = true <;> simp [hr, blankVert]
+
+end
+
+
+
+
+theorem map_mapIdx {α β γ} (f : β → γ) (g : Nat → α → β) (k : Nat) (l : List α) :
+    (mapIdx g k l).map f = mapIdx (fun i a => f (g i a)) k l := by
+  induction l generalizing k with
+  | nil => rfl
+  | cons a r ih => simp [mapIdx, ih]
+
+section
+variable (d : Disp) (K1 K2 K3 K4 K5 K6 K7 : List KV)
+
+theorem dispVertsMulti_export (h : DispOK d = true) :
+    dispVertsMulti (dispSize d.power)
+      (dispKidsOf (dispHead d) K1 K2 K3 K4 K5 K6 K7
+        (some (rowLeaves (rowsetToks (dispSize d.power) (dispSize d.power) (dispSize d.power) (·.blend.toks) d.verts),
+               rowLeaves (rowsetToks (dispSize d.power) (dispSize d.power) (dispSize d.power) (·.malpha.toks) d.verts),
+               rowLeaves (rowsetToks (dispSize d.power) (dispSize d.power) (dispSize d.power) (colorToks 0) d.verts),
+               rowLeaves (rowsetToks (dispSize d.power) (dispSize d.power) (dispSize d.power) (colorToks 1) d.verts),
+               rowLeaves (rowsetToks (dispSize d.power) (dispSize d.power) (dispSize d.power) (colorToks 2) d.verts),
+               rowLeaves (rowsetToks (dispSize d.power) (dispSize d.power) (dispSize d.power) (colorToks 3) d.verts))))
+      (mapIdx (baseVert (dispSize d.power)) 0 d.verts)
+      = .ok (mapIdx (multiVert (dispSize d.power)) 0 d.verts) := by
+  simp only [DispOK, Bool.and_eq_true, decide_eq_true_eq, List.all_eq_true] at h
+  obtain ⟨⟨⟨⟨⟨⟨⟨hp1, hp4⟩, hpos⟩, helev⟩, hcoll⟩, hal⟩, hlen⟩, hv⟩ := h
+  generalize hsz : dispSize d.power = size at *
+  have hvo : ∀ s ∈ d.verts, DVertOK s = true := hv
+  have hb : ∀ s ∈ d.verts, V4OK s.blend = true ∧ V4OK s.malpha = true := by
+    intro s hs
+    have := hvo s hs
+    simp only [DVertOK, Bool.and_eq_true] at this
+    exact ⟨this.1.1.2, this.1.2⟩
+  have hcol : ∀ i, ∀ s ∈ d.verts, V3OK (colorOf i s) = true := fun i s hs => colorOf_ok i s (hvo s hs)
+  have colStep : ∀ (i : Nat) (name : String) (vs : List DVert), vs.length = size * size →
+      dispRows name (3 * size) (dispKidsOf (dispHead d) K1 K2 K3 K4 K5 K6 K7
+        (some (rowLeaves (rowsetToks size size size (·.blend.toks) d.verts),
+               rowLeaves (rowsetToks size size size (·.malpha.toks) d.verts),
+               rowLeaves (rowsetToks size size size (colorToks 0) d.verts),
+               rowLeaves (rowsetToks size size size (colorToks 1) d.verts),
+               rowLeaves (rowsetToks size size size (colorToks 2) d.verts),
+               rowLeaves (rowsetToks size size size (colorToks 3) d.verts))))
+        = rowsOfBlock (3 * size) (rowLeaves (rowsetToks size size size (colorToks i) d.verts)) →
+      applyRowset name size 3 size (updColor i) (dispKidsOf (dispHead d) K1 K2 K3 K4 K5 K6 K7
+        (some (rowLeaves (rowsetToks size size size (·.blend.toks) d.verts),
+               rowLeaves (rowsetToks size size size (·.malpha.toks) d.verts),
+               rowLeaves (rowsetToks size size size (colorToks 0) d.verts),
+               rowLeaves (rowsetToks size size size (colorToks 1) d.verts),
+               rowLeaves (rowsetToks size size size (colorToks 2) d.verts),
+               rowLeaves (rowsetToks size size size (colorToks 3) d.verts)))) vs
+        = .ok (mapIdx (fun j v => if inRegion size size size j then
+            { v with colors := v.colors.map fun l => setAt l i fun _ => colorOf i (d.verts.getD j blankVert) } else v) 0 vs) := by
+    intro i name vs hvs hd
+    exact applyRowset_spec size 3 size (updColor i)
+      (fun v s => { v with colors := v.colors.map fun l => setAt l i fun _ => colorOf i s }) (colorToks i) d.verts vs
+      name size _ (Nat.le_refl _) (Nat.le_refl _) hvs hlen (by intro s; rw [colorToks_eq]; rfl)
+      (fun s hs => by rw [colorToks_eq]; exact v3_tokList (hcol i s hs))
+      (fun v s hs => by simp [updColor, colorToks_eq, num3_toks (hcol i s hs)]) hd
+  unfold dispVertsMulti
+  rw [colStep 0 "multiblend_color_0" _ (by simp [mapIdx_length, hlen]) (dispRows_color0 d _ _ _ _ _ _ _ _ _ _ _ _ _ _)]
+  simp only [Except.bind]
+  rw [colStep 1 "multiblend_color_1" _ (by simp [mapIdx_length, hlen]) (dispRows_color1 d _ _ _ _ _ _ _ _ _ _ _ _ _ _)]
+  simp only [Except.bind]
+  rw [colStep 2 "multiblend_color_2" _ (by simp [mapIdx_length, hlen]) (dispRows_color2 d _ _ _ _ _ _ _ _ _ _ _ _ _ _)]
+  simp only [Except.bind]
+  rw [colStep 3 "multiblend_color_3" _ (by simp [mapIdx_length, hlen]) (dispRows_color3 d _ _ _ _ _ _ _ _ _ _ _ _ _ _)]
+  simp only [Except.bind]
+  rw [applyRowset_spec size 4 size updBlend (fun v s => { v with blend := s.blend }) (·.blend.toks) d.verts _
+    "multiblend" size _ (Nat.le_refl _) (Nat.le_refl _) (by simp [mapIdx_length, hlen]) hlen (by intro s; rfl)
+    (fun s hs => v4_tokList (hb s hs).1)
+    (fun v s hs => by simp [updBlend, num4_toks (hb s hs).1])
+    (dispRows_multiblend d _ _ _ _ _ _ _ _ _ _ _ _ _ _)]
+  simp only [Except.bind]
+  rw [applyRowset_spec size 4 size updMalpha (fun v s => { v with malpha := s.malpha }) (·.malpha.toks) d.verts _
+    "alphablend" size _ (Nat.le_refl _) (Nat.le_refl _) (by simp [mapIdx_length, hlen]) hlen (by intro s; rfl)
+    (fun s hs => v4_tokList (hb s hs).2)
+    (fun v s hs => by simp [updMalpha, num4_toks (hb s hs).2])
+    (dispRows_alphablend d _ _ _ _ _ _ _ _ _ _ _ _ _ _)]
+  congr 1
+  simp only [map_mapIdx, mapIdx_mapIdx]
+  apply mapIdx_congr
+  intro j a ha
+  have hj : j < size * size := by rw [← hlen]; exact lt_of_getElem? ha
+  simp only [Nat.zero_add, inRegion_full size j hj, if_true, getD_of_getElem? ha, multiVert, whiteColors, baseVert,
+    Option.map_some, setAt]
+
+end
+
+
+
+
+/-! ### displacement: the whole `dispinfo` block -/
+
+theorem flag_roundtrip : ∀ c, c < 8 → flagToColl (collToFlag c) = c ∧ collToFlag c ≤ 15 := by decide
+
+theorem intTokens_show (l : List Int) : intTokens (l.map showInt) = .ok l := by
+  induction l with
+  | nil => rfl
+  | cons a r ih => simp [intTokens, parseInt_showInt, ih]
+
+theorem dispKidsOf_split (head K1 K2 K3 K4 K5 K6 K7 : List KV)
+    (m : Option (List KV × List KV × List KV × List KV × List KV × List KV)) :
+    ∃ blocks, dispKidsOf head K1 K2 K3 K4 K5 K6 K7 m = head ++ blocks ∧ (∀ k ∈ blocks, k.isBlock = true) ∧
+      findKey "allowed_verts" (head ++ blocks) = some (kBlock "allowed_verts" K7) ∧
+      (head ++ blocks).any (named "multiblend") = (head.any (named "multiblend") || m.isSome) := by
+  rcases m with _ | ⟨M1, M2, M3, M4, M5, M6⟩
+  · refine ⟨_, rfl, ?_, ?_, ?_⟩
+    · intro k hk; simp at hk
+      rcases hk with rfl | rfl | rfl | rfl | rfl | rfl | rfl <;> rfl
+    · unfold findKey; rw [findLast_append]
+      simp [findLast, kBlock, named, KV.fname, KV.name, lower]
+    · simp [kBlock, named, KV.fname, KV.name, lower]
+  · refine ⟨_, rfl, ?_, ?_, ?_⟩
+    · intro k hk; simp at hk
+      rcases hk with rfl | rfl | rfl | rfl | rfl | rfl | rfl | rfl | rfl | rfl | rfl | rfl | rfl <;> rfl
+    · unfold findKey; rw [findLast_append]
+      simp [findLast, kBlock, named, KV.fname, KV.name, lower]
+    · simp [kBlock, named, KV.fname, KV.name, lower]
+
+theorem edge_eq (size j : Nat) (hj : j < size * size) :
+    (j % size == size - 1 || j / size == size - 1) = !(inRegion size (size - 1) (size - 1) j) := by
+  have hs : 0 < size := by
+    rcases Nat.eq_zero_or_pos size with h0 | h0
+    · subst h0; simp at hj
+    · exact h0
+  have h1 : j / size < size := (Nat.div_lt_iff_lt_mul hs).mpr hj
+  have h2 : j % size < size := Nat.mod_lt _ hs
+  have key : (j % size = size - 1 ∨ j / size = size - 1) ↔ ¬ (j / size < size - 1 ∧ j % size < size - 1) := by
+    omega
+  by_cases hr : (j / size < size - 1 ∧ j % size < size - 1)
+  · have hk : ¬ (j % size = size - 1 ∨ j / size = size - 1) := fun h => (key.mp h) hr
+    simp only [not_or] at hk
+    simp [inRegion, hr.1, hr.2, hk.1, hk.2]
+  · have hk := key.mpr hr
+    have : inRegion size (size - 1) (size - 1) j = false := by
+      simp only [inRegion, Bool.and_eq_false_iff, decide_eq_false_iff_not]
+      by_cases h3 : j / size < size - 1
+      · right; exact fun h4 => hr ⟨h3, h4⟩
+      · left; exact h3
+    rw [this]
+    rcases hk with hk | hk <;> simp [hk]
+
+theorem projVert_base (size j : Nat) (a : DVert) (hj : j < size * size) :
+    projVert false size j a = baseVert size j a := by
+  cases a
+  simp only [projVert, baseVert, blankVert, edge_eq size j hj, Bool.false_eq_true, if_false]
+  by_cases hr : inRegion size (size - 1) (size - 1) j = true <;> simp [hr]
+
+theorem projVert_multi (size j : Nat) (a : DVert) (hj : j < size * size) :
+    projVert true size j a = multiVert size j a := by
+  cases a
+  simp only [projVert, multiVert, baseVert, blankVert, edge_eq size j hj, if_true, colorOf]
+  by_cases hr : inRegion size (size - 1) (size - 1) j = true <;> simp [hr, List.range, List.range.loop]
+
+
+
+
+theorem dispSize_pos (p : Nat) : 2 ^ p = dispSize p - 1 := by simp [dispSize]
+
+theorem parseDisp_export (mb : Bool) (d : Disp) (h : DispOK d = true) :
+    parseDisp (exportDisp mb d).kids = .ok (projDisp mb d) := by
+  have hh := h
+  simp only [DispOK, Bool.and_eq_true, decide_eq_true_eq, List.all_eq_true] at hh
+  obtain ⟨⟨⟨⟨⟨⟨⟨hp1, hp4⟩, hpos⟩, helev⟩, hcoll⟩, hal⟩, hlen⟩, hv⟩ := hh
+  -- the children, with the arrays in `rowsetToks` form
+  have hkids : (exportDisp mb d).kids =
+      dispKidsOf (dispHead d)
+        (rowLeaves (rowsetToks (dispSize d.power) (dispSize d.power) (dispSize d.power) (·.normal.toks) d.verts))
+        (rowLeaves (rowsetToks (dispSize d.power) (dispSize d.power) (dispSize d.power) (fun v => [v.dist]) d.verts))
+        (rowLeaves (rowsetToks (dispSize d.power) (dispSize d.power) (dispSize d.power) (·.offset.toks) d.verts))
+        (rowLeaves (rowsetToks (dispSize d.power) (dispSize d.power) (dispSize d.power) (·.offsetNorm.toks) d.verts))
+        (rowLeaves (rowsetToks (dispSize d.power) (dispSize d.power) (dispSize d.power) (fun v => [v.alpha]) d.verts))
+        (rowLeaves (rowsetToks (dispSize d.power) (dispSize d.power - 1) (dispSize d.power - 1) triToks d.verts))
+        [kLeaf "10" (unwords (d.allowed.map showInt))]
+        (if mb && hasBlend d.verts then
+          some (rowLeaves (rowsetToks (dispSize d.power) (dispSize d.power) (dispSize d.power) (·.blend.toks) d.verts),
+                rowLeaves (rowsetToks (dispSize d.power) (dispSize d.power) (dispSize d.power) (·.malpha.toks) d.verts),
+                rowLeaves (rowsetToks (dispSize d.power) (dispSize d.power) (dispSize d.power) (colorToks 0) d.verts),
+                rowLeaves (rowsetToks (dispSize d.power) (dispSize d.power) (dispSize d.power) (colorToks 1) d.verts),
+                rowLeaves (rowsetToks (dispSize d.power) (dispSize d.power) (dispSize d.power) (colorToks 2) d.verts),
+                rowLeaves (rowsetToks (dispSize d.power) (dispSize d.power) (dispSize d.power) (colorToks 3) d.verts))
+         else none) := by
+    simp only [exportDisp, kBlock, KV.kids, rowsetKids_eq _ _ _ hlen, triKids_eq]
+  rw [hkids]
+  generalize hm : (if mb && hasBlend d.verts then
+          some (rowLeaves (rowsetToks (dispSize d.power) (dispSize d.power) (dispSize d.power) (·.blend.toks) d.verts),
+                rowLeaves (rowsetToks (dispSize d.power) (dispSize d.power) (dispSize d.power) (·.malpha.toks) d.verts),
+                rowLeaves (rowsetToks (dispSize d.power) (dispSize d.power) (dispSize d.power) (colorToks 0) d.verts),
+                rowLeaves (rowsetToks (dispSize d.power) (dispSize d.power) (dispSize d.power) (colorToks 1) d.verts),
+                rowLeaves (rowsetToks (dispSize d.power) (dispSize d.power) (dispSize d.power) (colorToks 2) d.verts),
+                rowLeaves (rowsetToks (dispSize d.power) (dispSize d.power) (dispSize d.power) (colorToks 3) d.verts))
+         else none) = m
+  obtain ⟨blocks, hsplit, hblocks, hfk, hany⟩ := dispKidsOf_split (dispHead d)
+    (rowLeaves (rowsetToks (dispSize d.power) (dispSize d.power) (dispSize d.power) (·.normal.toks) d.verts))
+    (rowLeaves (rowsetToks (dispSize d.power) (dispSize d.power) (dispSize d.power) (fun v => [v.dist]) d.verts))
+    (rowLeaves (rowsetToks (dispSize d.power) (dispSize d.power) (dispSize d.power) (·.offset.toks) d.verts))
+    (rowLeaves (rowsetToks (dispSize d.power) (dispSize d.power) (dispSize d.power) (·.offsetNorm.toks) d.verts))
+    (rowLeaves (rowsetToks (dispSize d.power) (dispSize d.power) (dispSize d.power) (fun v => [v.alpha]) d.verts))
+    (rowLeaves (rowsetToks (dispSize d.power) (dispSize d.power - 1) (dispSize d.power - 1) triToks d.verts))
+    [kLeaf "10" (unwords (d.allowed.map showInt))] m
+  have gl : ∀ key, getLeaf key (dispHead d ++ blocks) = getLeaf key (dispHead d) :=
+    fun key => getLeaf_append_blocks key _ _ hblocks
+  have hpow : getInt "power" 4 (dispHead d ++ blocks) = (d.power : Int) := by
+    unfold getInt; rw [gl]; unfold dispHead; kv_simp; simp [parseInt_showInt]
+  have hfl : getInt "flags" 0 (dispHead d ++ blocks) = (collToFlag d.coll : Int) := by
+    unfold getInt; rw [gl]; unfold dispHead; kv_simp; simp [parseInt_showInt]
+  have hposv : getV3 "startposition" v3zero (dispHead d ++ blocks) = d.pos := by
+    unfold getV3; rw [gl]; unfold dispHead; kv_simp
+    exact parseV3_wrap _ _ _ _ hpos (by decide) (by decide) (by decide) (by decide)
+  have hel : getFloat "elevation" (lit "0.0") (dispHead d ++ blocks) = d.elev := by
+    unfold getFloat; rw [gl]; unfold dispHead; kv_simp; simp [helev]
+  have hsub : getBool "subdiv" false (dispHead d ++ blocks) = d.subdiv := by
+    unfold getBool; rw [gl]; unfold dispHead; kv_simp; simp [boolLookup_boolStr]
+  obtain ⟨hfr, hfb⟩ := flag_roundtrip d.coll hcoll
+  have hallowed : parseAllowed (dispHead d ++ blocks) = .ok d.allowed := by
+    unfold parseAllowed
+    rw [hfk]
+    have h10 : named "10" (kLeaf "10" (unwords (d.allowed.map showInt))) = true := by kv_simp
+    have hg : getLeaf "10" [kLeaf "10" (unwords (d.allowed.map showInt))] = some (unwords (d.allowed.map showInt)) := by
+      kv_simp
+    simp only [kBlock, blockKids, List.any_cons, h10, Bool.true_or, if_true, hg]
+    rw [splitWs_unwords _ (by
+      intro t ht
+      simp only [List.mem_map] at ht
+      obtain ⟨i, _, rfl⟩ := ht
+      exact showInt_tok i)]
+    exact intTokens_show d.allowed
+  have hanyHead : (dispHead d).any (named "multiblend") = false := by
+    unfold dispHead; kv_simp
+  rw [hsplit]
+  unfold parseDisp
+  simp only [hpow, hfl, hposv, hel, hsub, hallowed, hal]
+  have c1 : (0 ≤ (d.power : Int) && (d.power : Int) ≤ 4) = true := by
+    simp only [Bool.and_eq_true, decide_eq_true_eq]; omega
+  have c2 : (0 ≤ (collToFlag d.coll : Int) && (collToFlag d.coll : Int) ≤ 15) = true := by
+    simp only [Bool.and_eq_true, decide_eq_true_eq]; omega
+  have c3 : (d.power == 0) = false := by
+    simp only [beq_eq_false_iff_ne, ne_eq]; omega
+  simp only [c1, c2, c3, Bool.not_true, Bool.false_eq_true, if_false, bne_self_eq_false, Int.toNat_natCast, hfr]
+  rw [dispSize_pos d.power]
+  unfold parseDispVerts
+  rw [← hsplit, dispVertsBase_export d _ m h]
+  simp only [Except.bind]
+  rw [hsplit, hany, hanyHead, Bool.false_or, ← hsplit]
+  by_cases hk : (mb && hasBlend d.verts) = true
+  · rw [hk] at hm
+    simp only [if_true] at hm
+    subst hm
+    simp only [Option.isSome_some, if_true]
+    rw [dispVertsMulti_export d _ _ _ _ _ _ _ h]
+    simp only [projDisp, hk]
+    congr 2
+    apply mapIdx_congr
+    intro j a ha
+    have hj : j < dispSize d.power * dispSize d.power := by rw [← hlen]; exact lt_of_getElem? ha
+    simp only [Nat.zero_add]
+    exact (projVert_multi _ j a hj).symm
+  · have hk' : (mb && hasBlend d.verts) = false := by simpa using hk
+    rw [hk'] at hm
+    simp only [Bool.false_eq_true, if_false] at hm
+    subst hm
+    simp only [Option.isSome_none, Bool.false_eq_true, if_false]
+    simp only [projDisp, hk']
+    congr 2
+    apply mapIdx_congr
+    intro j a ha
+    have hj : j < dispSize d.power * dispSize d.power := by rw [← hlen]; exact lt_of_getElem? ha
+    simp only [Nat.zero_add]
+    exact (projVert_base _ j a hj).symm
 
 
 end C06
